@@ -1463,6 +1463,10 @@ func (an *shapeAn) regexpPattern(re *Sym) (string, bool) {
 			if !ok || st.Addr != ssa.Value(g) {
 				continue
 			}
+			if k, isConst := st.Val.(*ssa.Const); isConst && k.Value != nil && k.Value.Kind() == constant.String {
+				// a pattern kept as an (effectively final) string variable and compiled where it is used
+				return constant.StringVal(k.Value), true
+			}
 			call, ok := st.Val.(*ssa.Call)
 			if !ok || call.Call.StaticCallee() == nil || fullFuncName(call.Call.StaticCallee()) != "regexp.MustCompile" {
 				continue
